@@ -54,6 +54,8 @@ def run(facts, rep, ctx):
     config_table(facts, rep, R3)
     helpers(facts, rep, R4)
     symmetry(facts, rep, R5)
+    R6 = rep.rule("R12.6", "a layer write creates or replaces the whole file with the caller's bytes", floor=2)
+    write_replaces(facts, rep, R6)
 
 
 def lookups(facts, rep, R1):
@@ -108,6 +110,9 @@ def lookups(facts, rep, R1):
                 bad = "a loop iteration does not probe the layer"
                 continue
             pcall, truth = probe
+            want_probe = {"read": "file_exists", "exists": "exists", "file_exists": "file_exists", "directory_exists": "directory_exists", "resolve": "resolve"}[name]
+            if pcall[1].rsplit("::", 1)[-1] != want_probe:
+                bad = "probes each layer with %s; a layer `contains` the path for this query only if %s holds (e.g. a directory of the same name in a higher layer must not shadow a file)" % (pcall[1].rsplit("::", 1)[-1], want_probe)
             recv = item_of_next(pcall[2][0])
             if recv is None:
                 bad = "probes %s rather than the layer being iterated" % fmt(pcall[2][0])[:80]
@@ -175,6 +180,46 @@ def confinement(facts, rep, R2):
                 rep.violation(R2, cb.name, "receiver:" + short, "%s writes through %s, which is not provably the last (highest-priority) layer" % (cb.name.rsplit("::", 1)[-1], fmt(recv)[:120]), "%s:%s" % (cb.file, t["line"]))
     # FileSystemLayer is public: its own mutators must not be reachable from any other pub fn of the crate
     # (covered by the caller check above).
+
+
+def write_replaces(facts, rep, R6):
+    """FileSystemLayer::write creates or *replaces* the file: std::fs::write / File::create, or an
+    OpenOptions chain with create(true) and truncate(true) and without append(true)."""
+    b = facts.body(LAYER + "::write")
+    if b is None:
+        rep.inconc(R6, "FileSystemLayer::write missing")
+        return
+    where = "%s:%s" % (b.file, b.line)
+    names = []
+    opts = {}
+    for bb, t in b.calls():
+        nm = callee_names(t)[1] or callee_names(t)[0] or ""
+        names.append(nm)
+        if nm.startswith("std::fs::OpenOptions::") and len(t["args"]) == 2:
+            a = b.term_of_operand(t["args"][1])
+            if a[0] == "const":
+                opts[nm.rsplit("::", 1)[-1]] = a[1]
+    if any(n == "std::fs::write" or n.startswith("std::fs::File::create") for n in names):
+        rep.ok(R6, {"fn": b.name, "how": "std::fs::write / File::create (truncating)"})
+    elif any(n.startswith("std::fs::OpenOptions::") for n in names):
+        if opts.get("create") is True and opts.get("truncate") is True and not opts.get("append"):
+            rep.ok(R6, {"fn": b.name, "how": "OpenOptions create+truncate"})
+        else:
+            rep.violation(R6, b.name, "no-truncate", "FileSystemLayer::write opens the file with %s: an existing longer file keeps its tail, so a read after the write does not return exactly the written bytes" % opts, where)
+    else:
+        rep.inconc(R6, "FileSystemLayer::write: no file-writing call recognised")
+    # the written bytes and the path are the caller's
+    ok_args = False
+    for bb, t in b.calls():
+        nm = callee_names(t)[1] or ""
+        if nm == "std::fs::write" or nm.endswith("Write::write_all") or nm.endswith("io::Write>::write_all"):
+            a = b.term_of_operand(t["args"][-1])
+            if any(x[0] == "param" and x[1] == 3 for x in walk(a)):
+                ok_args = True
+    if ok_args:
+        rep.ok(R6, {"fn": b.name, "payload": "caller's bytes"})
+    else:
+        rep.violation(R6, b.name, "payload", "FileSystemLayer::write does not write the caller's bytes", where)
 
 
 def last_layer(facts, recv, depth=0):
